@@ -35,7 +35,9 @@ type LaplaceDistribution struct {
 /* -------------------------------------------------------------------------- */
 
 func NewLaplaceDistribution(mu, sigma Scalar) (*LaplaceDistribution, error) {
-
+  if !(sigma.GetFloat64() > 0.0) {
+    return nil, fmt.Errorf("invalid value for parameter sigma: %f", sigma.GetFloat64())
+  }
   result := LaplaceDistribution{}
   result.Mu    = mu   .CloneScalar()
   result.Sigma = sigma.CloneScalar()
@@ -72,9 +74,11 @@ func (dist *LaplaceDistribution) LogPdf(r Scalar, x ConstScalar) error {
   r.Abs(r)
   r.Div(r, dist.Sigma)
   r.Neg(r)
-  r.Exp(r)
-  r.Div(r, dist.Sigma)
-  r.Div(r, dist.c2)
+  // -|x-mu|/sigma - log(2 sigma)
+  t := dist.Sigma.CloneScalar()
+  t.Mul(t, dist.c2)
+  t.Log(t)
+  r.Sub(r, t)
 
   return nil
 }
@@ -90,15 +94,20 @@ func (dist *LaplaceDistribution) Pdf(r Scalar, x ConstScalar) error {
 func (dist *LaplaceDistribution) LogCdf(r Scalar, x Vector) error {
 
   r.Sub(x.At(0), dist.Mu)
-  r.Abs(r)
   r.Div(r, dist.Sigma)
-  r.Neg(r)
-  r.Exp(r)
-  r.Div(r, dist.c2)
 
   if x.At(0).Greater(dist.Mu) {
+    // log(1 - exp(-(x-mu)/sigma)/2)
     r.Neg(r)
-    r.Add(r, dist.c1)
+    r.Exp(r)
+    r.Div(r, dist.c2)
+    r.Neg(r)
+    r.Log1p(r)
+  } else {
+    // (x-mu)/sigma - log(2)
+    t := dist.c2.CloneScalar()
+    t.Log(t)
+    r.Sub(r, t)
   }
   return nil
 }
